@@ -1,6 +1,7 @@
 //! bumpmc — bounded-exhaustive explorer for bumpalo (see /verif/DESIGN.md).
 
 pub mod arena;
+pub mod coll;
 pub mod env;
 pub mod grid;
 pub mod overflow;
@@ -85,6 +86,44 @@ fn load_skip(path: Option<&String>) -> HashSet<u64> {
         }
     }
     s
+}
+
+fn run_generic<M: mc::Model>(model: &M, replay: bool, a: &HashMap<String, String>, threads: usize, slab_bytes: usize, depth: usize, extra: serde_json::Value) {
+    if replay {
+        let bytes = journal::from_hex(a.get("hex").expect("--hex"));
+        let h = mc::Hist::<M::Cfg, M::Act>::from_bytes(&bytes).unwrap_or_else(|| {
+            eprintln!("MACHINERY: history bytes have the wrong length");
+            std::process::exit(2)
+        });
+        let mut w = mc::Worker { idx: 0, env: env::ExecEnv::new(slab_bytes) };
+        journal::set_worker(0);
+        journal::install_altstack();
+        env::attach(&mut *w.env as *mut env::ExecEnv);
+        journal::record(&h);
+        println!("{}", serde_json::to_string(&serde_json::json!({"replaying": model.describe(&h)})).unwrap());
+        let out = model.run(&mut w, &h, false);
+        let viols: Vec<serde_json::Value> = out.violations.iter().map(|v| serde_json::json!({"property": format!("C{:02}", v.prop), "clause": v.clause, "key": v.key, "detail": v.detail})).collect();
+        let j = serde_json::json!({"history": model.describe(&h), "trace": [], "violations": viols, "key": format!("{:032x}", out.key)});
+        println!("{}", serde_json::to_string_pretty(&j).unwrap());
+        return;
+    }
+    let prop: u32 = a.get("prop").map(|s| s.parse().unwrap()).unwrap_or(0);
+    let p = mc::Params {
+        max_depth: depth,
+        max_devs: 0,
+        threads,
+        budget_s: a.get("budget-s").map(|s| s.parse().unwrap()).unwrap_or(40.0),
+        prop_mask: if prop == 0 { u32::MAX } else { 1 << prop },
+        slab_bytes,
+        emergency_out: a.get("out").cloned(),
+        max_violations: 40,
+        skip: load_skip(a.get("skip")),
+        max_states_per_level: a.get("max-level").map(|s| s.parse().unwrap()).unwrap_or(3_000_000),
+    };
+    let rep = mc::explore(model, &p);
+    let j = report_json(&rep, extra);
+    let out = a.get("out").cloned().unwrap_or("/dev/stdout".into());
+    std::fs::write(&out, serde_json::to_string_pretty(&j).unwrap()).unwrap();
 }
 
 fn main() {
@@ -223,6 +262,30 @@ fn main() {
             let j = report_json(&rep, serde_json::json!({"engine": "pair", "thorough": thorough, "max_depth": depth, "threads": threads}));
             let out = a.get("out").cloned().unwrap_or("/dev/stdout".into());
             std::fs::write(&out, serde_json::to_string_pretty(&j).unwrap()).unwrap();
+        }
+        "vec" | "replay-vec" => {
+            let replay = args[1] == "replay-vec";
+            env::init_region((threads + 2) * env::MAX_ARENAS * (slab_bytes + env::SLAB_ALIGN));
+            journal::install(a.get("dump").map(|s| s.as_str()));
+            journal::spawn_watchdog(a.get("stall-s").map(|s| s.parse().unwrap()).unwrap_or(20));
+            let thorough = a.get("tier").map(|s| s == "thorough").unwrap_or(false);
+            let depth: usize = a.get("depth").map(|s| s.parse().unwrap()).unwrap_or(4);
+            let max_len: usize = a.get("max-len").map(|s| s.parse().unwrap()).unwrap_or(4);
+            let mode = if a.get("mode").map(|s| s == "faults").unwrap_or(false) { coll::vecmodel::VMode::Faults } else { coll::vecmodel::VMode::Diff };
+            let model = coll::vecmodel::VecModel { mode, thorough, max_len, max_depth: depth };
+            run_generic(&model, replay, &a, threads, slab_bytes, depth, serde_json::json!({"engine": "vec", "mode": format!("{:?}", mode), "max_len": max_len, "max_depth": depth, "thorough": thorough}));
+        }
+        "str" | "replay-str" => {
+            let replay = args[1] == "replay-str";
+            env::init_region((threads + 2) * env::MAX_ARENAS * (slab_bytes + env::SLAB_ALIGN));
+            journal::install(a.get("dump").map(|s| s.as_str()));
+            journal::spawn_watchdog(a.get("stall-s").map(|s| s.parse().unwrap()).unwrap_or(20));
+            let thorough = a.get("tier").map(|s| s == "thorough").unwrap_or(false);
+            let depth: usize = a.get("depth").map(|s| s.parse().unwrap()).unwrap_or(3);
+            let max_chars: usize = a.get("max-len").map(|s| s.parse().unwrap()).unwrap_or(3);
+            let mode = if a.get("mode").map(|s| s == "faults").unwrap_or(false) { coll::strmodel::SMode::Faults } else { coll::strmodel::SMode::Diff };
+            let model = coll::strmodel::StrModel { mode, thorough, max_chars, max_depth: depth };
+            run_generic(&model, replay, &a, threads, slab_bytes, depth, serde_json::json!({"engine": "str", "mode": format!("{:?}", mode), "max_chars": max_chars, "max_depth": depth, "thorough": thorough}));
         }
         "replay-arena" => {
             env::init_region(4 * env::MAX_ARENAS * (slab_bytes + env::SLAB_ALIGN));
